@@ -5,6 +5,7 @@ CONSTANTS
   FetchMax = 2
   WideEvery = 0
   OffsetReset = "all"
+  LateResp = "drop"
   HWFallback = FALSE
   ElectAlive = TRUE
   AllowLag = TRUE
@@ -17,6 +18,7 @@ CONSTANTS
   Policies = {"ALL", "LEADER", "NONE"}
   UseCheckpoint = TRUE
   MaxPause = 1
+  MaxHold = 2
   Batch = 1
   IgnoreTaints = TRUE
 CHECK_DEADLOCK FALSE
